@@ -2,6 +2,7 @@ package props
 
 import (
 	"bytes"
+	"crypto"
 	"encoding/base64"
 	"fmt"
 	"math/rand/v2"
@@ -128,6 +129,14 @@ func runC13(c *mon.Ctx) {
 		want := ksp.Certs[ksp.WantSign]
 		algs := SigAlgsFor(want.Key)
 		alg := algs[(k/len(kcs))%len(algs)]
+		if r.IntN(8) == 0 {
+			// a setting the key cannot serve (other key type's identifier, unknown identifier): the library default applies
+			other := sim.K("spsignec")
+			if !want.Key.IsRSA() {
+				other = sim.K("spsign")
+			}
+			alg = SigAlgChoice{URI: pick(r, []string{SigAlgsFor(other)[1+r.IntN(4)].URI, "urn:unknown:alg", "rsa-sha512"}), Hash: crypto.SHA256}
+		}
 		cn := canons[(k/(len(kcs)*len(algs)))%len(canons)]
 		kind := outKinds[r.IntN(len(outKinds))]
 		sp := ksp.SP
